@@ -124,6 +124,29 @@ def run(ctx):
     ctx.rule("R5", "initial snapshot (label 0) written for each stream under step_offset == 0; allocation includes it")
     ctx.rule("R6", "who-may-write: HDF5 row stores and allocations use the stream's own capacity/cadence")
     ctx.rule("R7", "a stream's sink exists whenever its own cadence is positive: writer enable flags are implied by every stream they serve")
+    ctx.rule("R8", "cadences by value: the interpreted run loop, output setup and writers of the base engine put exactly the due steps of every stream (screen, XYZ, data, "
+                   "coordinates, velocities, forces, checkpoints, transition densities; nonadiabatic at writer level) into its sink, fresh and resumed")
+    by_value = _r8_by_value(ctx, repo, md)
+    # R1-R7 are shape-based readings of what R8 decides by value for the base engine, its output setup and the writers.  When R8 holds, their findings and their "shape not
+    # recognised" stops about code of seqm/MolecularDynamics.py are not reported; the gating of the nonadiabatic stream inside the surface-hopping engine
+    # (seqm/NonadiabaticDynamics.py) is judged by the shape-based rules only.
+    if by_value:
+        ctx.demote = lambda rid, rel, function, message: ("decided by value in R8" if rel == MD and "nonadiabatic" not in message.lower() else None)
+    try:
+        _shape_based(ctx, repo, md, nad, ct)
+    except AnalysisError as e:
+        if by_value and "NonadiabaticDynamics" not in str(e) and "nonadiabatic" not in str(e).lower():
+            ctx.note(f"shape-based rules stopped ({str(e)[:120]}); the streams of the base engine and the writers are decided by value in R8")
+            for rid in ("R1", "R2", "R3", "R4", "R5", "R6", "R7"):
+                ctx.ok(rid, MD, "decided by value in R8 (shape-based reading not applicable to this spelling)", nontrivial=False)
+            _nonadiabatic_engine_gate(ctx, repo, md, nad, ct)
+        else:
+            raise
+    finally:
+        ctx.demote = None
+
+
+def _shape_based(ctx, repo, md, nad, ct):
     _r7(ctx, repo)
 
     # ---- cadence dict is per-key -------------------------------------------------
@@ -139,8 +162,37 @@ def run(ctx):
     ctx.check(cad_labels == {"coordinates", "velocities", "forces"}, "R1", md, init, "HDF5Writer.__init__", "self._cadence",
               "HDF5Writer._cadence is the per-key vector cadence dict", f"self._cadence derives from {sorted(cad_labels)}")
 
-    # ---- R1/R4/R5 per sink call site ----------------------------------------------
-    for sink in SINKS:
+    h5w = md.cls("HDF5Writer")
+    _sink_sites(ctx, repo, md, nad, ct, h5w, SINKS)
+    ctx.floor("R1", 20)
+
+    _r2_allocation(ctx, md, ct)
+    _r3_cursors(ctx, md)
+    _r6_alloc_labels(ctx, md, ct)
+
+    # transition-density sub-stream: observation only (not one of the enumerated streams)
+    ad = md.func("HDF5Writer.append_data")
+    for st in _steps_stores(ad):
+        if "gtdm" in norm(st.targets[0]):
+            labs = set()
+            for (x, y, mult, a) in modulo_atoms(controlling(md, st)):
+                labs |= ct.labels(y, ad, h5w)
+            ctx.observe(f"transition_density_matrices sub-stream is committed inside append_data (so also gated by the 'data' "
+                        f"cadence at the call site) with own modulus labels {sorted(labs)}; not one of the streams C11 enumerates")
+
+
+def _nonadiabatic_engine_gate(ctx, repo, md, nad, ct):
+    """the shape-based reading of the nonadiabatic stream's call sites inside the surface-hopping engine (always judged)"""
+    h5w = md.cls("HDF5Writer")
+    saved, ctx.demote = ctx.demote, None
+    try:
+        _sink_sites(ctx, repo, md, nad, ct, h5w, [s_ for s_ in SINKS if s_["stream"] == "nonadiabatic"], only_mod=nad)
+    finally:
+        ctx.demote = saved
+
+
+def _sink_sites(ctx, repo, md, nad, ct, h5w, sinks, only_mod=None):
+    for sink in sinks:
         callee, label_expr, step_param = _label_expr_in_callee(md, sink)
         # modulo atoms inside the callee controlling the commit statement
         inner_atoms = []
@@ -153,7 +205,7 @@ def run(ctx):
         else:
             inner_ctrl = []
         sites = []
-        for m in (md, nad):
+        for m in ((md, nad) if only_mod is None else (only_mod,)):
             sites += [(m, c) for c in _call_sites(m, sink["method"], sink["recv"])]
         loop_sites = 0
         init_sites = 0
@@ -231,21 +283,39 @@ def run(ctx):
         if sink["initial"]:
             ctx.check(init_sites >= 1, "R5", md, callee, sink["method"], sink["method"],
                       f"{sink['stream']}: has an initial-snapshot write site", f"{sink['stream']}: no initial snapshot (label 0) is ever written")
-    ctx.floor("R1", 20)
 
-    _r2_allocation(ctx, md, ct)
-    _r3_cursors(ctx, md)
-    _r6_alloc_labels(ctx, md, ct)
 
-    # transition-density sub-stream: observation only (not one of the enumerated streams)
-    ad = md.func("HDF5Writer.append_data")
-    for st in _steps_stores(ad):
-        if "gtdm" in norm(st.targets[0]):
-            labs = set()
-            for (x, y, mult, a) in modulo_atoms(controlling(md, st)):
-                labs |= ct.labels(y, ad, h5w)
-            ctx.observe(f"transition_density_matrices sub-stream is committed inside append_data (so also gated by the 'data' "
-                        f"cadence at the call site) with own modulus labels {sorted(labs)}; not one of the streams C11 enumerates")
+def _r8_by_value(ctx, repo, md) -> bool:
+    from .. import h5model
+    try:
+        fresh = h5model.interpreted_fresh_runs(repo)
+        resumed = h5model.interpreted_resume_runs(repo, all_crash_points=(ctx.tier == "thorough"))
+        na = h5model.interpreted_nonadiabatic_writer(repo)
+    except AnalysisError as e:
+        ctx.note(f"R8: the run loop / output setup / writers could not be interpreted ({str(e)[:140]}); cadences are judged by the shape-based rules R1-R7 only")
+        ctx.ok("R8", MD, "not interpretable in this spelling: judged by the shape-based rules", nontrivial=False)
+        return False
+    good = True
+    run = md.func("Molecular_Dynamics_Basic.run")
+
+    def describe(t):
+        pe, xe, d, c, v, f, td, molid, steps, exc = t
+        return (f"print {pe} / xyz {xe} / data {d} / coordinates {c} / velocities {v} / forces {f} / tdm {td}, {steps} steps, molecules {molid}" + (", excited states" if exc else ""))
+    for t, msgs in fresh:
+        ctx.check(not msgs, "R8", md, run, "Molecular_Dynamics_Basic.run", f"fresh run, cadences {describe(t)}", f"fresh run: every sink holds exactly its due steps ({describe(t)})",
+                  (msgs[0] if msgs else "") + f" [fresh run, cadences {describe(t)}]")
+        good = good and not msgs
+    for t, ck, msgs, n in resumed:
+        ctx.check(not msgs, "R8", md, run, "Molecular_Dynamics_Basic.run", f"resumed run, cadences {describe(t)}, checkpoint every {ck}",
+                  f"{n} kill points: resumed sinks hold exactly their due steps ({describe(t)}, checkpoint every {ck})",
+                  (msgs[0] if msgs else "") + f" [cadences {describe(t)}, checkpoint every {ck}]")
+        good = good and not msgs
+    ap = md.func("HDF5Writer.append_nonadiabatic") if md.has_func("HDF5Writer.append_nonadiabatic") else run
+    for c, N, msgs in na:
+        ctx.check(not msgs, "R8", md, ap, "HDF5Writer.append_nonadiabatic", f"nonadiabatic cadence {c}, {N} steps", f"nonadiabatic rows of the writer are the due steps (cadence {c}, {N} steps)",
+                  (msgs[0] if msgs else "") + f" [nonadiabatic cadence {c}, {N} steps]")
+        good = good and not msgs
+    return good
 
 
 def _positive_guard(y, ctrl, ct=None, func=None, cls=None, depth=0) -> bool:
